@@ -207,25 +207,41 @@ def ctor_precedence_problems(prog: Program, ci: ClassInfo) -> List[Tuple[str, st
     if init is None:
         return out
     params = {p.arg for p in init.params[1:]}
-    for st in walk_own(init.node):
-        if not (isinstance(st, ast.Assign) and len(st.targets) == 1 and isinstance(st.targets[0], ast.Attribute)
+    from ..cfg import CFG
+    from ..flow import Flow
+    cfg = CFG(init, prog)
+    fl = Flow(cfg)
+    for n in cfg.stmt_nodes():
+        st = n.ast
+        if not (n.kind == 'stmt' and isinstance(st, ast.Assign) and len(st.targets) == 1 and isinstance(st.targets[0], ast.Attribute)
                 and dotted(st.targets[0].value) == 'self'):
             continue
         attr = 'self.' + st.targets[0].attr
-        v = st.value
-        names = {x.id for x in ast.walk(v) if isinstance(x, ast.Name)}
-        ps = sorted(names & params)
-        if not ps or attr not in {dotted(x) for x in ast.walk(v) if isinstance(x, ast.Attribute)}:
+        alts = fl.alts(n, st.value, boolops=True)
+        leaf_names = {dotted(a.expr) for a in alts}
+        ps = sorted(x for x in leaf_names if x in params)
+        if not ps or attr not in leaf_names:
             continue
         p = ps[0]
-        ok = False
-        if isinstance(v, ast.IfExp):
-            ck = classify_cond(prog, init, v.test)
-            if ck.kind == 'is-none' and ck.subject == p:
-                given, absent = (v.body, v.orelse) if ck.negated else (v.orelse, v.body)
-                ok = dotted(given) == p and dotted(absent) == attr
-        elif isinstance(v, ast.BoolOp) and isinstance(v.op, ast.Or) and [dotted(x) for x in v.values] == [p, attr]:
-            ok = True     # precedence is right; the truthiness of the protocol scalar is SENT-TRUTH's business
+        ok = True
+        for a in alts:
+            given: Optional[bool] = None          # is the constructor argument known to be given (not None) on this path?
+            for c, pol in a.guards:
+                k = classify_cond(prog, init, c)
+                if k.subject != p:
+                    continue
+                if k.kind == 'is-none':
+                    given = (k.negated == pol)
+                elif k.kind == 'truthy':
+                    # a truthy value is certainly given; the falsy side conflates None with 0 / "" (SENT-TRUTH reports that)
+                    given = True if (not k.negated) == pol else False
+            d = dotted(a.expr)
+            if d == p and given is not True:
+                ok = False
+            elif d == attr and given is not False:
+                ok = False
+            elif d not in (p, attr):
+                ok = False
         if not ok:
             out.append((f'{attr} does not give precedence to the constructor argument {p}',
                         f'`{norm(st)}`: an explicitly given `{p}` must be stored (the class-level value is only the fallback when `{p}` is None); '
